@@ -24,6 +24,24 @@ func defFor(check string) *checkDef {
 			rule: "one simulated run per seed: swarm configuration, generated history of batches (insert/update/delete, empty and delete-only batches, ids re-used) from one client, every background step scheduled from the tape; after every window with a changed root a fresh Reader is read completely and compared document by document with the abstract index. distinct = distinct release sequences (hash of actor:gate per window); non-trivial = at least one background step (persister/merger/introducer release) was interleaved between two client operations",
 			assume: commonAssume,
 			probes: []string{"introducer-recompute-obsoletes", "file-merge", "in-memory-merge", "merge-3plus-inputs", "nap-timer-fired"}}
+	case "C04":
+		return &checkDef{property: "C04", level: "exploration",
+			budget: map[string]tierCfg{"quick": {2500, 75}, "thorough": {100000, 1500}},
+			rule: "one simulated run per seed: 1-3 client actors hold up to three Readers of different ages open while batches, in-memory merges, file merges, persist swaps, clean-ups (unlinks) and writer Close are scheduled between their reads; the first full read of a reader (count, match-all with stored fields, lookup by id, sorted top-N over document values, aggregations, dictionary scan, phrase/boolean/conjunction/disjunction/range/prefix queries) is its baseline, checked against the abstract index at acquisition; every later read must be identical. distinct = distinct release sequences; non-trivial = a background step was interleaved between two client operations",
+			assume: commonAssume,
+			probes: []string{"reader-held-across-unlink-of-other-files", "remove-refused-while-reader-open", "reader-held-across-merge", "reader-reread", "file-merge", "in-memory-merge"}}
+	case "C05":
+		return &checkDef{property: "C05", level: "exploration",
+			budget: map[string]tierCfg{"quick": {4000, 75}, "thorough": {200000, 1500}},
+			rule: "one simulated run per seed: 2-8 client actors over 3-6 shared ids issue 2-5 operations each (Batch/Insert/Update/Delete, Reader()+full read); the window between a batch computing its obsoletes and its introduction is opened by the DocsMatchingTerms gate; invoke/return are stamped with scheduler windows; porcupine decides the history against the abstract index (Illegal = violation, Unknown counted, never reported) and, independently, every monitor observation must be an atomic application of in-flight batches. distinct = distinct release sequences; non-trivial = background step interleaved between client operations",
+			assume: commonAssume,
+			probes: []string{"introducer-recompute-obsoletes", "multi-batch-window"}}
+	case "C06":
+		return &checkDef{property: "C06", level: "exploration",
+			budget: map[string]tierCfg{"quick": {2500, 75}, "thorough": {100000, 1500}},
+			rule: "one simulated run per seed in a merge-heavy configuration (tiers 2-3, floor 1-4, tasks of 2-10 segments, in-memory merge threshold 2-4); while a merge is between its Merge seam and its introduction the generator aims deletes/updates (including delete-all) at documents of the merging segments; after every window the monitor reader must equal the abstract index, at quiescence the reopened on-disk index too. distinct = distinct release sequences; non-trivial = background step interleaved between client operations",
+			assume: commonAssume,
+			probes: []string{"delete-into-merge-window", "merge-skipped-all-deleted", "in-memory-merge", "file-merge", "merge-3plus-inputs", "file-merge-empty-segment"}}
 	}
 	return nil
 }
